@@ -451,6 +451,36 @@ class SemDecoder:
             return a + b if isinstance(e.op, ast.Add) else a - b
         if isinstance(e, ast.Call) and isinstance(e.func, ast.Name) and e.func.id == 'int' and len(e.args) == 1:
             return self._aff_e(e.args[0])
+        if isinstance(e, ast.BoolOp) and isinstance(e.op, ast.Or) and len(e.values) == 2:
+            # ``stream.read(n or -1)`` / ``n or None``: for every n but 0 this reads n bytes -- and for n == 0 it reads the rest
+            # of the stream where zero bytes were announced.  The length is n; the zero case is a finding of its own.
+            d = e.values[1]
+            neg = (isinstance(d, ast.UnaryOp) and isinstance(d.op, ast.USub)) or (isinstance(d, ast.Constant) and (d.value is None or (
+                isinstance(d.value, int) and d.value < 0)))
+            if neg:
+                msg = ('a field announced with length 0 is read with read(%s): the whole rest of the stream is taken for it and '
+                       'everything after it is swallowed' % txt)
+                lst = self.lx.size_problems.setdefault(self.c.name, [])
+                if msg not in lst:
+                    lst.append(msg)
+                return self._aff_e(e.values[0])
+        if isinstance(e, ast.IfExp):
+            # ``-1 if n is None else n``: an announced length (an integer expression in the decoded fields) is never None
+            t = e.test
+            verdict = None
+            if isinstance(t, ast.Constant):
+                verdict = bool(t.value)
+            elif isinstance(t, ast.Compare) and len(t.ops) == 1 and isinstance(t.ops[0], (ast.Is, ast.IsNot, ast.Eq, ast.NotEq)) \
+                    and isinstance(t.comparators[0], ast.Constant) and t.comparators[0].value is None:
+                try:
+                    self._aff_e(t.left)
+                    verdict = isinstance(t.ops[0], (ast.IsNot, ast.NotEq))
+                except AnalysisError:
+                    verdict = None
+            if verdict is not None:
+                return self._aff_e(e.body if verdict else e.orelse)
+            if norm(e.body) == norm(e.orelse):
+                return self._aff_e(e.body)
         v = self._const(txt)
         if v is not None:
             return Affine.c(v)
